@@ -95,11 +95,7 @@ func runHistory(r *core.Run, cid string, L int) {
 		case x < 96:
 			// governance replaces or upgrades the client of one path: in-flight value stays in flight
 			a, b := s.RandNodePair()
-			gov := s.ToggleRoundTrip
-			if rng.Intn(2) == 0 {
-				gov = s.UpgradeClient
-			}
-			if err := gov(a, b); err != nil {
+			if err := s.GovClientOp(a, b); err != nil {
 				r.Inconclusive("%s: client toggle / upgrade failed: %v", cid, err)
 				return
 			}
